@@ -14,7 +14,9 @@ from vlib import Failure, finish, unhexs
 
 COQ_FILES = ["Bytes.v", "FrameModel.v", "FrameProofs.v", "TagModel.v", "TagProofs.v", "TypedModel.v", "TypedSpec.v", "TypedProofs.v"]
 
-STRS = ["x", "a b", " lead", "trail ", "é", "日本", "=", "a=b", "a: b", "OK", "ACK [5@0] {} x", "list_OK", "0", "tab\there", "\"q\"", "x" * 300]
+STRS = ["x", "a b", " lead", "trail ", "é", "日本", "=", "a=b", "a: b", "OK", "ACK [5@0] {} x", "list_OK", "0", "tab\there", "\"q\"", "x" * 300,
+        # carriage returns and other control characters are ordinary bytes of a value, wherever they stand (the line ends at the line feed)
+        "Live\r", "\r", "a\rb", "\rlead", "x\r\r", "end\t", "bell\x07", "\x7f", "nbsp\u00a0", "\u00a0", "x\u2028", "trail\u3000"]
 NAMES = ["rating", "playcount", "a b", "é", "x_y", "0"]
 TS = ["2024-01-02T03:04:05Z", "1970-01-01T00:00:00Z", "2038-12-28T23:59:59Z", "0001-02-03T00:00:00Z"]
 BOUND = {"u8": [0, 1, 100, U8], "u32": [0, 1, U32], "u64": [0, 1, 2 ** 32, U64], "usize": [0, 1, U64],
